@@ -8,6 +8,7 @@ BAD=0
 for K in $IDS; do
   P=${K%-*}; WT=/tmp/seedrun/$K
   if grep -q '"status": "neutralised"' seeded/$K/meta.json 2>/dev/null; then echo "$K NEUTRALISED by a later fix (kept for the record, see meta.json)"; continue; fi
+  if grep -q '"detected_by": null' seeded/$K/meta.json 2>/dev/null; then echo "$K RECORDED-AS-NOT-DETECTED (open hole, see meta.json and DESIGN.md 9.5)"; continue; fi
   rm -rf $WT; git -C /repo worktree prune; git -C /repo worktree add -q --detach $WT HEAD || { echo "$K WORKTREE-ERROR"; BAD=1; continue; }
   if ! git -C $WT apply /verif/seeded/$K/patch.diff 2>/dev/null; then echo "$K PATCH-DOES-NOT-APPLY"; BAD=1; git -C /repo worktree remove --force $WT; continue; fi
   (cd $WT && PYTHONPATH=$WT /venv/bin/python -W ignore /verif/seeded/$K/demo.py >/dev/null 2>&1); D=$?
